@@ -648,6 +648,14 @@ T_STRING_ARRAY = PB.ServiceArgType.Value("SERVICE_ARG_TYPE_STRING_ARRAY")
 ARG_FIELD = {T_BOOL: "bool_", T_FLOAT: "float_", T_STRING: "string_", T_BOOL_ARRAY: "bool_array",
              T_INT_ARRAY: "int_array", T_FLOAT_ARRAY: "float_array", T_STRING_ARRAY: "string_array"}
 NARGS = shard_int("NARGS", 1)
+LISTLEN = shard_int("LISTLEN", 2)
+
+
+def _strs_short(ls) -> bool:
+    for x in ls:
+        if len(x) > 2:
+            return False
+    return True
 
 
 def _pick(t: int, b, i, f, s, lb, li, lf, ls):
@@ -662,8 +670,9 @@ def h15_execute_service(key: int, major: int, minor: int, t0: int, t1: int,
     pre: 0 <= key < 2**32 and 0 <= major < 2**32 and 0 <= minor < 2**32
     pre: 0 <= t0 <= 7 and 0 <= t1 <= 7
     pre: len(s0) <= 2 and len(s1) <= 2
-    pre: len(lb0) <= 2 and len(li0) <= 2 and len(lf0) <= 2 and len(ls0) <= 2
-    pre: len(lb1) <= 2 and len(li1) <= 2 and len(lf1) <= 2 and len(ls1) <= 2
+    pre: len(lb0) <= LISTLEN and len(li0) <= LISTLEN and len(lf0) <= LISTLEN and len(ls0) <= LISTLEN
+    pre: len(lb1) <= LISTLEN and len(li1) <= LISTLEN and len(lf1) <= LISTLEN and len(ls1) <= LISTLEN
+    pre: _strs_short(ls0) and _strs_short(ls1)
     pre: _ver_ok(major, minor, 1, 3)
     post: _
     """
@@ -734,23 +743,53 @@ def shards(tier: str) -> list:
                 "desc": "light_command: transition_length / flash_length as real-modelled float seconds -> nearest whole millisecond"})
     nfix = 4
     for b in range(1 << nfix):
-        out.append({"fn": "h15_light", "env": {"BITS": b, "NFIX": nfix}, "cond_timeout": 240,
+        out.append({"fn": "h15_light", "env": {"BITS": b, "NFIX": nfix}, "cond_timeout": 300,
                     "desc": f"light_command: presence of the first {nfix} optionals = {b:04b} (LSB first), all 256 subsets of the other 8"})
     nfix = 3
     for b in range(1 << nfix):
-        out.append({"fn": "h15_climate", "env": {"BITS": b, "NFIX": nfix}, "cond_timeout": 240,
+        out.append({"fn": "h15_climate", "env": {"BITS": b, "NFIX": nfix}, "cond_timeout": 300,
                     "desc": f"climate_command: presence of the first {nfix} optionals = {b:03b}, all 128 subsets of the other 7, symbolic API version (both sides of 1.5)"})
     for leg in (0, 1):
-        for n in ((1, 2) if tier == "thorough" else (1,)):
-            out.append({"fn": "h15_execute_service", "env": {"NARGS": n, "LEGACY": leg}, "cond_timeout": 400,
-                        "desc": f"execute_service with {n} argument(s) of every type, API " + ("< 1.3" if leg else ">= 1.3")})
+        out.append({"fn": "h15_execute_service", "env": {"NARGS": 1, "LEGACY": leg, "LISTLEN": 2 if tier == "quick" else 3}, "cond_timeout": 400,
+                    "desc": "execute_service with 1 argument of every type, API " + ("< 1.3" if leg else ">= 1.3")})
     if tier == "quick":
-        out.append({"fn": "h15_execute_service", "env": {"NARGS": 2}, "cond_timeout": 400,
+        out.append({"fn": "h15_execute_service", "env": {"NARGS": 2, "LISTLEN": 2}, "cond_timeout": 400,
                     "desc": "execute_service with 2 arguments, all 64 type pairs, symbolic API version"})
+    else:
+        for leg in (0, 1):
+            out.append({"fn": "h15_execute_service", "env": {"NARGS": 2, "LEGACY": leg, "LISTLEN": 3}, "cond_timeout": 1200,
+                        "desc": "execute_service with 2 arguments, all 64 type pairs, lists <= 3, API " + ("< 1.3" if leg else ">= 1.3")})
     return out
 
 
-BOUNDS = {}
-OUTSIDE = []
-ASSUMPTIONS = []
-EXPLANATION = "C15"
+BOUNDS = {
+    "quick": {
+        "all commands": "key in [0, 2^32); EVERY subset of the optional arguments of every command (fan 64, siren 16, media_player 16, "
+                        "climate 1024, light 4096, cover/valve/lock/alarm all); values: symbolic bool / unbounded int (enum-typed "
+                        "arguments are symbolic ints: every member value and every other int) / str of length <= 2 / one symbolic "
+                        "IEEE-754 double per float argument (every double incl. +-0.0, subnormals, +-inf, NaN; passed through untouched)",
+        "api version": "cover, climate, execute_service: (major, minor) symbolic in [0, 2^32)^2, both sides of 1.1 / 1.5 / 1.3",
+        "durations": "h15_light: transition_length/flash_length symbolic INT seconds in [0, 4294967] (exact: ms == s*1000) together with "
+                     "all other arguments; h15_light_durations: float seconds in [0, 4294967.0] modelled as z3 Reals (every real "
+                     "number, not only doubles), oracle |ms - 1000 s| <= 1/2",
+        "execute_service": "1 and 2 arguments, each of every one of the 8 declared types, list values of length <= 2",
+    },
+    "thorough": {"as quick, plus": "execute_service list values of length <= 3 with 2 arguments on each side of 1.3"},
+}
+OUTSIDE = [
+    "str values longer than 2 characters; list-valued service arguments longer than the stated bound; services with more than 2 arguments",
+    "durations that are negative, NaN or infinite or exceed the uint32 millisecond field (no encoding is stated for them)",
+    "IEEE-754 rounding of seconds*1000 (the duration claim is at real-arithmetic level: z3 cannot decide 64-bit FP multiplication + round in useful time, measured > 2 s per query)",
+    "the protobuf byte encoding of the request (the request class is a pbstub double; C13/C02 cover ids and framing)",
+]
+ASSUMPTIONS = [
+    "pbstub doubles: named fields with descriptor defaults, AttributeError on unknown field, None keyword ignored (as protobuf does)",
+    "oracle compares the EFFECTIVE value of every field declared by the descriptor (assigned value, else default) with the expectation -- assigning a field its default is indistinguishable on the wire and is not flagged",
+    "legacy cover encoding (API < 1.1): stop -> STOP, else position == 1.0 -> OPEN, else position == 0.0 -> CLOSE, else no legacy command; when stop and position are both supplied STOP is demanded (a cover that is told to stop must not keep driving)",
+    "CrossHair's verdict cap for real-modelled floats is lifted for h15_light_durations only (vf/symtypes.py RealFloat): its claim is stated over the reals",
+    "vf/symtypes.py IeeeFloat: one z3 Float64 variable per float argument (CrossHair PreciseIeeeSymbolicFloat)",
+    "known finding C15/lock-has-code-not-set is suppressed in h15_lock (has_code only); every other field of that request is still checked",
+]
+EXPLANATION = ("C15: each harness calls the real APIClient command method on a recording connection with a pbstub request class; oracle = every "
+               "declared field of the one request sent has exactly the expected effective value (key, has_x/x for supplied optionals incl. "
+               "falsy values, rgb split, seconds->ms, legacy encodings below the version thresholds, defaults elsewhere).")
